@@ -2,6 +2,7 @@ package eng
 
 import (
 	"go/ast"
+	"go/constant"
 	"go/token"
 	"go/types"
 	"sort"
@@ -200,6 +201,12 @@ func (fr *former) form(e ast.Expr, pol bool, at Point) *Form {
 			return fr.form(x.X, !pol, at)
 		}
 	case *ast.BinaryExpr:
+		// the emptiness test of a string has one normal form, eq(s,""),
+		// however it is spelled (s == "", len(s) == 0, len(s) > 0, len(s) < 1 ...)
+		if str, empty, ok := StrLenTest(f, x); ok {
+			var vars []*types.Var
+			return fr.atom("eq("+fr.norm(str, at, &vars)+",\"\")", pol == empty, vars)
+		}
 		switch x.Op {
 		case token.LAND, token.LOR:
 			l, r := fr.form(x.X, pol, at), fr.form(x.Y, pol, at)
@@ -632,4 +639,66 @@ func (g *Graph) VarForms(v *types.Var) []string {
 		}
 	}
 	return out
+}
+
+// StrLenTest recognises a comparison of len(s), s a string, with a constant
+// that is an emptiness test: it returns s and whether the comparison holds
+// exactly when s is empty.
+func StrLenTest(f *Fn, be *ast.BinaryExpr) (ast.Expr, bool, bool) {
+	lenOf := func(e ast.Expr) ast.Expr {
+		cl, ok := ast.Unparen(e).(*ast.CallExpr)
+		if !ok || len(cl.Args) != 1 {
+			return nil
+		}
+		id, ok := ast.Unparen(cl.Fun).(*ast.Ident)
+		if !ok || id.Name != "len" || f.Info().Uses[id] != types.Universe.Lookup("len") {
+			return nil
+		}
+		t := f.Info().TypeOf(cl.Args[0])
+		if t == nil {
+			return nil
+		}
+		if b, ok := t.Underlying().(*types.Basic); !ok || b.Info()&types.IsString == 0 {
+			return nil
+		}
+		if f.ConstVal(cl.Args[0]) != nil {
+			return nil
+		}
+		return cl.Args[0]
+	}
+	constOf := func(e ast.Expr) (int64, bool) {
+		v := f.ConstVal(e)
+		if v == nil || v.Kind() != constant.Int {
+			return 0, false
+		}
+		return constant.Int64Val(v)
+	}
+	op := be.Op
+	s := lenOf(be.X)
+	k, okk := constOf(be.Y)
+	if s == nil || !okk {
+		s = lenOf(be.Y)
+		k, okk = constOf(be.X)
+		if s == nil || !okk {
+			return nil, false, false
+		}
+		// k op len(s)  ==  len(s) op' k
+		switch op {
+		case token.LSS:
+			op = token.GTR
+		case token.GTR:
+			op = token.LSS
+		case token.LEQ:
+			op = token.GEQ
+		case token.GEQ:
+			op = token.LEQ
+		}
+	}
+	switch {
+	case op == token.EQL && k == 0, op == token.LSS && k == 1, op == token.LEQ && k == 0:
+		return s, true, true
+	case op == token.NEQ && k == 0, op == token.GTR && k == 0, op == token.GEQ && k == 1:
+		return s, false, true
+	}
+	return nil, false, false
 }
